@@ -44,7 +44,7 @@ func (c *Ctx) guardsOf(fn *ssa.Function) *guardInfo {
 	changed := true
 	for changed {
 		changed = false
-		for _, b := range fn.Blocks {
+		for _, b := range blocksOf(fn) {
 			if b == entry || b == fn.Recover {
 				continue
 			}
